@@ -1,16 +1,12 @@
 /-
-C04 for mTSP.
+C04 for mTSP (code after the upstream fix 0b6c547).
 
 Batch part: the only batch-global read of `_step` is the first-step flag `batch_to_scalar(td["i"]) == 0`
 (row 0's counter).  All rows of a batch carry the same counter (`LockStep`, preserved by every step),
 so the batched step equals the row-wise step (`batchStep_eq_map`).
 
-Padding part: a finished row only offers the depot; stepping it keeps `done` and the mask, but the
-FIRST such step changes the reward state (`max_subtour_length` absorbs the way back of the last tour
-a second time): `pad_noop_statement` is false of the code (`pad_noop_counterexample`).  What does hold
-(`pad_noop_partial`): done and mask are kept, the new reward state is
-`max(old, current_length + D cur 0 + D 0 0)`, and it is unchanged once the row stands at the depot
-(second and later padding steps).
+Padding part (`pad_noop`): a finished row only offers the depot; stepping it — any number of times,
+while slower batch-mates are still running — changes neither `done`, nor the mask, nor the reward.
 -/
 import Rl4co.Proofs.Mtsp
 import Rl4co.Props.C03.Mtsp
@@ -66,67 +62,30 @@ theorem lockStep_step (rows : List (Inst × State)) (acts : List Nat) (c : Nat) 
 
 /-! ### padding part -/
 
-/-- further invariant: at the depot the running length is 0; the running maximum is non-negative -/
-structure InvLen (s : State) : Prop where
-  atDepot : s.cur = 0 → s.curLen = 0
-  maxNonneg : 0 ≤ s.maxLen
-
-theorem invLen_of_reach (i : Inst) {s : State} (h : Reach env i s) : InvLen s := by
-  refine Rl4co.inv_of_reach (e := env) (Inv := InvLen) ⟨fun _ => rfl, by simp [env, reset]⟩ ?_ h
-  intro s a hi _ _
-  refine ⟨?_, ?_⟩
-  · intro hc
-    have : a = 0 := hc
-    show (step i s a).curLen = 0
-    rw [step_curLen, if_pos this]
-  · show 0 ≤ (step i s a).maxLen
-    rw [step_maxLen]; have := hi.maxNonneg; omega
-
-def pad_noop_statement : Prop :=
-  ∀ (i : Inst) (s : State) (a : Nat), WFD i → 1 ≤ i.n → 1 ≤ i.m → Reach env i s →
-    env.done i s = true → a < env.nAct i → env.mask i s a = true →
-      env.done i (env.step i s a) = true ∧
-      (∀ b, b < env.nAct i → env.mask i (env.step i s a) b = env.mask i s b) ∧
-      rewardMinmax (env.step i s a) = rewardMinmax s
-
-/-- One customer at distance 1: after `[1]` the reward is −2, after the padding step it is −3. -/
-theorem pad_noop_counterexample : ¬ pad_noop_statement := by
-  intro h
-  have := h cexInst (exec env cexInst (env.reset cexInst) [1]) 0
-    ⟨by intro a b; simp only [cexInst]; split <;> omega, rfl⟩ (by decide) (by decide)
-    ⟨[1], (run_iff_admitted _ _ _ _ _).2 ⟨by decide, rfl⟩⟩ (by decide) (by decide) (by decide)
-  revert this; decide
-
-/-- **C04 (mTSP), padding part — what holds.** -/
-theorem pad_noop_partial (i : Inst) (hn : 1 ≤ i.n) (hm : 1 ≤ i.m) {s : State} (h : Reach env i s)
-    (hd : env.done i s = true) (a : Nat) (ha : a < env.nAct i) (hmask : env.mask i s a = true) :
+/-- **C04 (mTSP): padding is a no-op.** -/
+theorem pad_noop (i : Inst) (hwf : WFD i) (hn : 1 ≤ i.n) (hm : 1 ≤ i.m) {s : State}
+    (h : Reach env i s) (hd : env.done i s = true) (a : Nat) (ha : a < env.nAct i)
+    (hmask : env.mask i s a = true) :
     a = 0 ∧
     env.done i (env.step i s a) = true ∧
     (∀ b, b < env.nAct i → env.mask i (env.step i s a) b = env.mask i s b) ∧
-    (env.step i s a).maxLen = max s.maxLen (s.curLen + i.D s.cur 0 + i.D 0 0) ∧
-    (s.cur = 0 → i.D 0 0 = 0 → rewardMinmax (env.step i s a) = rewardMinmax s) := by
-  have hi := inv_of_reach hn hm h
-  have hl := invLen_of_reach i h
+    rewardMinmax (env.step i s a) = rewardMinmax s := by
+  obtain ⟨hi, hp⟩ := inv_both_of_reach hwf hn hm h
   have hd' : s.done = true := hd
   have h0 := mask_of_done hi hd' ha hmask
   subst h0
   have hds := done_step_of_done hi hd'
   have hi' := inv_step hi ha hmask
-  have hmx : (step i s 0).maxLen = max s.maxLen (s.curLen + i.D s.cur 0 + i.D 0 0) := by
-    rw [step_maxLen, hds]; simp
-  refine ⟨rfl, hds, ?_, hmx, ?_⟩
+  refine ⟨rfl, hds, ?_, ?_⟩
   · intro b hb
     show (step i s 0).avail b = s.avail b
     cases b with
     | zero => rw [hi'.doneDep hds, hi.doneDep hd']
     | succ k =>
-      simp only [env] at hb
+      have hb' : k + 1 < i.n + 1 := hb
       rw [hi'.doneNo hds (k + 1) (by omega) (by omega), hi.doneNo hd' (k + 1) (by omega) (by omega)]
-  · intro hc h00
-    show - (step i s 0).maxLen = - s.maxLen
-    rw [hmx, hc, hl.atDepot hc, h00]
-    have := hl.maxNonneg
-    omega
+  · show - (step i s 0).maxLen = - s.maxLen
+    rw [maxLen_pad hwf hi hp hd']
 
 /-- Non-vacuity: the finished state after `[1,2]` (2 customers, 1 agent) is reachable and offers the depot. -/
 example : Reach env ⟨2, 1, fun _ _ => 1⟩ (exec env ⟨2, 1, fun _ _ => 1⟩ (env.reset ⟨2, 1, fun _ _ => 1⟩) [1, 2]) :=
